@@ -27,6 +27,8 @@
 #include "src/interpret.h"
 #include "src/backend.h"
 void verif_tick (void);
+extern int verif_binaries_loaded;	/* hook in lib/lpc/program/binaries.c */
+static int binloads_base = 0;
 
 /* virtual clock: backend.c:call_heart_beat() does `time (&current_time)`; interposed at link level so that a backend
  * tick keeps the harness' clock (current_time) instead of jumping to the wall clock */
@@ -287,6 +289,104 @@ static void cmd_dump (int n, char **tok)
       if (ob && !(ob->flags & O_DESTRUCTED))
         vh_out ("obj %s %s", tok[i], pname (ob->prog));
     }
+  /* how many programs came from saved binaries since the start of the case / the last `reload` */
+  vh_out ("binloads %d", verif_binaries_loaded - binloads_base);
+}
+
+/* reload <name>...   everything compiled for this case is thrown away so that it is loaded again (from the saved
+ * binaries, if the case's programs have #pragma save_binary) in a state where the shared strings of the function names
+ * live at OTHER addresses: every object under /c07/g/ is destructed and really freed (programs and their name strings
+ * go), the apply cache is cleared (its entries hold name references), the harness' own references are dropped, and the
+ * names are interned again in the order given (best effort: ascending addresses in that order; the following `dump`
+ * shows the order actually reached).  Names the driver itself keeps alive (create, heart_beat) stay where they are. */
+static object_t *held[256];
+static int nheld = 0;
+
+static void cmd_reload (int n, char **tok)
+{
+  object_t *victims[512];
+  int nv = 0;
+  for (object_t * ob = obj_list; ob && nv < 512; ob = ob->next_all)
+    if (!(ob->flags & O_DESTRUCTED) && ob->name && !strncmp (ob->name, "c07/g/", 6))
+      victims[nv++] = ob;
+  for (int i = 0; i < nv; i++)
+    {
+      error_context_t econ;
+      save_context (&econ);
+      if (!setjmp (econ.context))
+        {
+          destruct_object (victims[i]);
+          pop_context (&econ);
+        }
+      else
+        {
+          restore_context (&econ);
+          pop_context (&econ);
+        }
+    }
+  /* labels of destructed objects must not dangle; give back the references the label table holds */
+  for (int i = 0; i < nv; i++)
+    {
+      const char *oid;
+      while (strcmp (oid = vh_oid_of (victims[i]), "?"))
+        vh_setobj (oid, 0);
+    }
+  remove_destructed_objects ();
+  for (int i = 0; i < nheld; i++)
+    free_object (held[i], "c07 reload");
+  nheld = 0;
+  clear_apply_cache ();
+  for (int i = 0; i < nnames; i++)
+    free_string (names[i]);
+  nnames = 0;
+  static char *got[MAXN];
+  int made = 0;
+  for (int attempt = 0; attempt < 40; attempt++)
+    {
+      static int dummy_no = 0;
+      int ok = 1;
+      char *prev = 0;
+      made = 0;
+      for (int i = 1; i < n && made < MAXN; i++)
+        {
+          char *p;
+          if (findstring (tok[i]))
+            continue;		/* kept alive by the driver (or named twice): cannot move */
+          p = make_shared_string (tok[i]);
+          if (prev && p <= prev)
+            ok = 0;
+          prev = p;
+          got[made++] = p;
+        }
+      if (ok || attempt == 39)
+        break;
+      for (int i = 0; i < made; i++)
+        free_string (got[i]);
+      /* take some chunks of the same size class out of the allocator's free list and try again */
+      for (int i = 0; i < 64; i++)
+        {
+          char d[32];
+          snprintf (d, sizeof d, "zz_pad_%d", dummy_no++);
+          make_shared_string (d);
+        }
+    }
+  /* the harness' table owns one reference per name: the one made above, or a new one for a name that could not move */
+  for (int i = 1; i < n && nnames < MAXN; i++)
+    {
+      char *p = findstring (tok[i]);
+      int seen = 0, mine = 0;
+      for (int k = 0; k < nnames; k++)
+        if (names[k] == p)
+          seen = 1;
+      if (seen)
+        continue;
+      for (int k = 0; k < made; k++)
+        if (got[k] == p)
+          mine = 1;
+      names[nnames++] = mine ? p : make_shared_string (tok[i]);
+    }
+  binloads_base = verif_binaries_loaded;
+  vh_out ("reload done");
 }
 
 /* ---- calls --------------------------------------------------------------- */
@@ -595,7 +695,14 @@ static int c07_cmd (char *line)
           ob = 0;
         }
       if (ob)
-        vh_setobj (tok[1], ob);
+        {
+          /* vh_setobj takes a reference when it creates the label (not when it re-points it): remember which objects
+           * carry one, `reload` has to give it back or the program (and its name strings) would stay alive */
+          int before = ob->ref;
+          vh_setobj (tok[1], ob);
+          if (ob->ref > before && nheld < 256)
+            held[nheld++] = ob;
+        }
       else
         vh_out ("ld %s !fail", tok[1]);
       return 1;
@@ -605,6 +712,13 @@ static int c07_cmd (char *line)
       cmd_dump (n, tok);
       return 1;
     }
+  if (!strcmp (tok[0], "reload"))
+    {
+      cmd_reload (n, tok);
+      return 1;
+    }
+  if (!strcmp (tok[0], "savebin") && n == 1)
+    return 1;			/* consumed by the plugin (#pragma save_binary in the generated sources) */
   if (!strcmp (tok[0], "call") && n == 4 && (!strcmp (tok[1], "coa") || !strcmp (tok[1], "cos")))
     {
       cmd_call_targets (tok[1], tok[2], tok[3]);
